@@ -38,6 +38,10 @@ func TString(t *ast.Type) string { panic("ghost") }
 //@ modifies fresh
 //@ end
 
+// C15: every field the introspection query asks for is decoded: encoding/json drops a key that no struct field
+// carries without a word (directive arguments were decoded from "arg" while the query asks for "args", B31)
+//@ decodes introspectionQuery into IntrospectionQueryResult @props C15
+
 //@ func parseTypeRef
 //@ props C15
 //@ requires response != nil
